@@ -80,7 +80,7 @@ def report(ctx, focus, fails, classfn=None):
         f["cls2"] = (classfn or fail_class)(f)
     known, new = ctx.classify(fails, lambda f: f["cls2"])
     for f, k, hit in known:
-        t = "%s [%s]" % (hit.get("text", ""), k)
+        t = "%s [%s]" % (hit.get("text", ""), hit.get("match", k))
         if t not in ctx.known:
             ctx.known.append(t)
     classes = {}
